@@ -307,7 +307,7 @@ def r20_3(ctx):
     for sc in steps.scenarios(model, dom):
         construct = f"{sc.step_fi.key}::R20.3::{sc.cls.name}::{sc.noise_type}::{','.join(sorted(k for k, v in sc.options.items() if v))}"
         try:
-            outs, B, d = index_step(model, sc, dom)
+            outs, B, d = index_step(model, sc, dom, *((4, 3) if ctx.tier == "thorough" else (3, 2)))
         except SimRaise as e:
             raise AnalysisError(f"R20.3: {sc.label}: the step raises {e.exc_name} on index-level tensors: {e.message}",
                                 where=astq.loc(sc.step_fi))
